@@ -5,6 +5,26 @@ PY_SUBSET = ('Python semantics of the executed subset as encoded by pyvc.symexec
              'sequences as len/at theories, path-by-path execution, loops cut at invariants)')
 
 PROPS = {
+    'C17': {
+        'level': 'proof',
+        'proof': [('contracts.workflow', None)],
+        'bounded': [],
+        'assumptions': [PY_SUBSET],
+        'explanation': 'Workflow.as_dask_dict proved for all graphs: injective keys, sink renamed, every task '
+                       'stored as (function, *static inputs, *predecessor keys in predecessor order)',
+    },
+    'C06': {
+        'level': 'exploration',
+        'custom': [('contracts.b_structs', 'bounded_value_classes')],
+        'assumptions': [],
+        'explanation': 'bounded contract check only',
+    },
+    'C12': {
+        'level': 'exploration',
+        'custom': [('contracts.b_structs', 'bounded_modelhash')],
+        'assumptions': [],
+        'explanation': 'bounded contract check only',
+    },
     'C16': {
         'level': 'proof',
         'proof': [('contracts.modeldb', None)],
